@@ -786,3 +786,202 @@ Qed.
 
 Lemma reachable_nodup ops : NoDup (keys (s_store (run init_state ops))).
 Proof. apply run_nodup. constructor. Qed.
+
+(* ---------- request polls to unknown connected peers ---------- *)
+Lemma req_get_filter_other k x rq :
+  x <> k -> req_get x (filter (fun kv : string * Z => negb (String.eqb k (fst kv))) rq) = req_get x rq.
+Proof.
+  intros Hne. induction rq as [|[k' t] r IH]; simpl; [reflexivity|].
+  destruct (String.eqb_spec k k') as [->|Hne']; simpl.
+  - destruct (String.eqb_spec x k'); [congruence|exact IH].
+  - now rewrite IH.
+Qed.
+
+Lemma req_get_set_same k t rq : req_get k (req_set k t rq) = Some t.
+Proof. unfold req_set; simpl. now rewrite String.eqb_refl. Qed.
+
+Lemma req_get_set_other k x t rq : x <> k -> req_get x (req_set k t rq) = req_get x rq.
+Proof.
+  intros Hne. unfold req_set; simpl. destruct (String.eqb_spec x k); [congruence|].
+  now apply req_get_filter_other.
+Qed.
+
+Lemma req_get_prune k conn rq : mem k conn = true -> req_get k (prune_req conn rq) = req_get k rq.
+Proof.
+  intros Hm. unfold prune_req. induction rq as [|[k' t] r IH]; simpl; [reflexivity|].
+  destruct (String.eqb_spec k k') as [->|Hne].
+  - rewrite Hm. simpl. now rewrite String.eqb_refl.
+  - destruct (mem k' conn); simpl; [|exact IH]. destruct (String.eqb_spec k k'); [congruence|exact IH].
+Qed.
+
+Definition request_allowed (interval now : Z) (k : string) (rq : list (string * Z)) : Prop :=
+  match req_get k rq with Some last => interval <= sat_sub now last | None => True end.
+
+Lemma sat_sub_self now : sat_sub now now = 0.
+Proof. unfold sat_sub. rewrite Z.sub_diag. reflexivity. Qed.
+
+Lemma allow_request_true interval now force k rq rq' :
+  allow_request interval now force k rq = (true, rq') ->
+  rq' = req_set k now rq /\ (force = true \/ request_allowed interval now k rq).
+Proof.
+  unfold allow_request, request_allowed. destruct (req_get k rq) as [last|].
+  - destruct force; simpl.
+    + intros H'; inversion H'; auto.
+    + destruct (Z.ltb_spec (sat_sub now last) interval); intros H'; inversion H'. split; [reflexivity|right; lia].
+  - intros H'; inversion H'; auto.
+Qed.
+
+Lemma allow_request_false interval now force k rq rq' :
+  allow_request interval now force k rq = (false, rq') -> rq' = rq.
+Proof.
+  unfold allow_request. destruct (req_get k rq) as [last|].
+  - destruct (negb force && (sat_sub now last <? interval)); intros H; inversion H; reflexivity.
+  - intros H; inversion H.
+Qed.
+
+Lemma request_unknown_spec interval now force s known : forall conn rq rq' ms,
+  request_unknown interval now force s known conn rq = (rq', ms) ->
+  (forall k, req_get k rq' = req_get k rq \/
+             (req_get k rq' = Some now /\ exists ok, In (k, ps_msgtype_request_poll, ok) ms)) /\
+  (forall k ty ok, In (k, ty, ok) ms ->
+     req_get k rq' = Some now /\ ty = ps_msgtype_request_poll /\ In k conn /\ mem k known = false /\
+     mem k (s_susp s) = false /\
+     (force = true \/ request_allowed interval now k rq \/ interval <= 0)).
+Proof.
+  induction conn as [|k0 rest IH]; intros rq rq' ms H; simpl in H.
+  - inversion H; subst. split; [auto|intros ? ? ? []].
+  - assert (Hskip : request_unknown interval now force s known rest rq = (rq', ms) ->
+      (forall k, req_get k rq' = req_get k rq \/
+             (req_get k rq' = Some now /\ exists ok, In (k, ps_msgtype_request_poll, ok) ms)) /\
+      (forall k ty ok, In (k, ty, ok) ms ->
+         req_get k rq' = Some now /\ ty = ps_msgtype_request_poll /\ In k (k0 :: rest) /\ mem k known = false /\
+         mem k (s_susp s) = false /\
+         (force = true \/ request_allowed interval now k rq \/ interval <= 0))).
+    { intros H'. destruct (IH _ _ _ H') as [I1 I2]. split; [exact I1|].
+      intros k ty ok Hin. destruct (I2 _ _ _ Hin) as (A & B & C & D & E & F). repeat split; auto. right; exact C. }
+    revert H. destruct (mem k0 known) eqn:Ekn; [exact Hskip|]. destruct (mem k0 (s_susp s)) eqn:Esu; [exact Hskip|].
+    destruct (allow_request interval now force k0 rq) as [ok0 rq1] eqn:Ea. destruct ok0.
+    + destruct (allow_request_true _ _ _ _ _ _ Ea) as [-> Hal].
+      destruct (request_unknown interval now force s known rest (req_set k0 now rq)) as [rq2 ms2] eqn:Er.
+      intros H; inversion H; subst. destruct (IH _ _ _ Er) as [I1 I2].
+      assert (Hk0 : req_get k0 rq' = Some now).
+      { destruct (I1 k0) as [E|[E _]]; [rewrite E; apply req_get_set_same|exact E]. }
+      split.
+      * intros k. destruct (string_dec k k0) as [->|Hne].
+        -- right. split; [exact Hk0|]. eexists. left. reflexivity.
+        -- destruct (I1 k) as [E|[E (ok & Hin)]].
+           ++ left. rewrite E. now apply req_get_set_other.
+           ++ right. split; [exact E|]. exists ok. right. exact Hin.
+      * intros k ty ok [E|Hin].
+        -- unfold do_send in E. inversion E; subst. repeat split; auto. left; reflexivity.
+           destruct Hal as [Hf|Hal]; auto.
+        -- destruct (I2 _ _ _ Hin) as (A & B & C & D & E & F). repeat split; auto. right; exact C.
+           destruct F as [F|[F|F]]; auto. destruct (string_dec k k0) as [->|Hne].
+           ++ unfold request_allowed in F. rewrite req_get_set_same, sat_sub_self in F. auto.
+           ++ unfold request_allowed in *. rewrite req_get_set_other in F by exact Hne. auto.
+    + rewrite (allow_request_false _ _ _ _ _ _ Ea). exact Hskip.
+Qed.
+
+Definition unknown_request (now : Z) (s : state) (o : op) (k : string) : Prop :=
+  exists force ok, o = OPoll force /\ In (k, ps_msgtype_request_poll, ok) (sends_of (step now s o)) /\
+                   ~ has_key k (s_store s).
+
+(* anatomy of one poll round *)
+Lemma poll_peers_unknown now force s k ok :
+  In (k, ps_msgtype_request_poll, ok) (snd (poll_peers now force s)) -> ~ has_key k (s_store s) ->
+  In k (s_conn s) /\ mem k (s_susp s) = false /\
+  (force = true \/ request_allowed ps_poller_request_interval now k (s_req s)) /\
+  req_get k (s_req (fst (poll_peers now force s))) = Some now.
+Proof.
+  unfold poll_peers. destruct (load_all (s_store s)) as [peers|] eqn:El; [|intros []].
+  destruct (poll_known now ps_poller_timeout force s peers (s_store s)) as [st' ms1] eqn:Ep.
+  destruct (poll_known_spec _ _ _ _ _ _ _ _ Ep) as (_ & _ & _ & _ & I5).
+  unfold has_key. rewrite <- (load_all_keys _ _ El). destruct (s_listfail s).
+  - simpl. intros Hin Hnk. exfalso. apply Hnk. eapply I5; eauto.
+  - destruct (request_unknown ps_poller_request_interval now force s (map fst peers) (s_conn s)
+                (prune_req (s_conn s) (s_req s))) as [rq' ms2] eqn:Er.
+    simpl. intros Hin Hnk. apply in_app_or in Hin. destruct Hin as [Hin|Hin]; [exfalso; apply Hnk; eapply I5; eauto|].
+    destruct (request_unknown_spec _ _ _ _ _ _ _ _ _ Er) as [_ I2].
+    destruct (I2 _ _ _ Hin) as (A & _ & C & _ & E & F). repeat split; auto.
+    destruct F as [F|[F|F]]; [left; exact F| |].
+    + right. unfold request_allowed in *. rewrite req_get_prune in F; [exact F|]. now apply mem_true_iff.
+    + exfalso. revert F. unfold ps_poller_request_interval. lia.
+Qed.
+
+Lemma poll_peers_quiet now force s k :
+  mem k (s_conn s) = true ->
+  (forall ok, In (k, ps_msgtype_request_poll, ok) (snd (poll_peers now force s)) -> has_key k (s_store s)) ->
+  req_get k (s_req (fst (poll_peers now force s))) = req_get k (s_req s).
+Proof.
+  unfold poll_peers. destruct (load_all (s_store s)) as [peers|] eqn:El; [|reflexivity].
+  destruct (poll_known now ps_poller_timeout force s peers (s_store s)) as [st' ms1] eqn:Ep.
+  destruct (s_listfail s); [reflexivity|].
+  destruct (request_unknown ps_poller_request_interval now force s (map fst peers) (s_conn s)
+              (prune_req (s_conn s) (s_req s))) as [rq' ms2] eqn:Er.
+  simpl. intros Hc Hq. destruct (request_unknown_spec _ _ _ _ _ _ _ _ _ Er) as [I1 I2].
+  destruct (I1 k) as [E|[_ (ok & Hin)]].
+  - rewrite E. now apply req_get_prune.
+  - exfalso. destruct (I2 _ _ _ Hin) as (_ & _ & _ & D & _). rewrite (load_all_keys _ _ El) in D.
+    apply mem_false_iff in D. apply D. apply (Hq ok). apply in_or_app. right. exact Hin.
+Qed.
+
+Definition keeps_request_time (s : state) (o : op) (k : string) : Prop :=
+  o <> OReload /\ (forall f, o = OPoll f -> mem k (s_conn s) = true).
+
+Lemma step_quiet now s o k :
+  keeps_request_time s o k -> ~ unknown_request now s o k ->
+  req_get k (s_req (state_after (step now s o))) = req_get k (s_req s).
+Proof.
+  intros [Hnr Hc] Hq. unfold state_after. destruct o; simpl; try reflexivity.
+  - destruct (handle_message now s from ty payload) as [s' ms] eqn:E. simpl.
+    unfold handle_message in E. destruct (ty =? ps_msgtype_poll); [inversion E; reflexivity|].
+    destruct (ty =? ps_msgtype_request_poll); [|inversion E; reflexivity].
+    destruct (mem from (s_susp s)); inversion E; reflexivity.
+  - destruct (poll_peers now force s) as [s' ms] eqn:E. simpl.
+    pose proof (poll_peers_quiet now force s k (Hc _ eq_refl)) as Hpq. rewrite E in Hpq. simpl in Hpq. apply Hpq.
+    intros ok Hin. destruct (in_dec string_dec k (keys (s_store s))) as [Hi|Hni]; [exact Hi|].
+    exfalso. apply Hq. exists force, ok. split; [reflexivity|]. split; [|exact Hni].
+    unfold sends_of. simpl. rewrite E. simpl. exact Hin.
+  - unfold poller_cleanup. destruct (s_listfail s); [reflexivity|].
+    destruct (cleanup_expired_except now ps_poller_timeout (s_conn s) (s_store s)); reflexivity.
+  - destruct (cleanup_expired_except now timeout keep (s_store s)); reflexivity.
+  - congruence.
+Qed.
+
+Fixpoint quiet_run (k : string) (s : state) (ops : list (Z * op)) : Prop :=
+  match ops with
+  | [] => True
+  | (now, o) :: r =>
+      keeps_request_time s o k /\ ~ unknown_request now s o k /\ quiet_run k (state_after (step now s o)) r
+  end.
+
+Lemma quiet_run_keeps k : forall ops s t,
+  req_get k (s_req s) = Some t -> quiet_run k s ops -> req_get k (s_req (run s ops)) = Some t.
+Proof.
+  induction ops as [|[now o] r IH]; intros s t Ht Hq; simpl; [exact Ht|].
+  destruct Hq as (Hk & Hn & Hr). apply IH; [|exact Hr]. unfold state_after in *. rewrite <- Ht. now apply step_quiet.
+Qed.
+
+Lemma step_poll_sends now s f : sends_of (step now s (OPoll f)) = snd (poll_peers now f s).
+Proof. unfold sends_of. simpl. destruct (poll_peers now f s); reflexivity. Qed.
+Lemma step_poll_state now s f : state_after (step now s (OPoll f)) = fst (poll_peers now f s).
+Proof. unfold state_after. simpl. destruct (poll_peers now f s); reflexivity. Qed.
+
+Lemma request_interval_respected s1 now1 o1 mid now2 k :
+  unknown_request now1 s1 o1 k ->
+  quiet_run k (state_after (step now1 s1 o1)) mid ->
+  unknown_request now2 (run (state_after (step now1 s1 o1)) mid) (OPoll false) k ->
+  ps_request_poll_interval <= now2 - now1.
+Proof.
+  intros (f1 & ok1 & -> & Hin1 & Hnk1) Hq (f2 & ok2 & Ef & Hin2 & Hnk2). inversion Ef; subst f2. clear Ef.
+  rewrite step_poll_sends in Hin1, Hin2.
+  set (s2 := state_after (step now1 s1 (OPoll f1))) in *.
+  assert (Hreq : req_get k (s_req s2) = Some now1).
+  { unfold s2. rewrite step_poll_state.
+    destruct (poll_peers_unknown now1 f1 s1 k ok1 Hin1 Hnk1) as (_ & _ & _ & R). exact R. }
+  pose proof (quiet_run_keeps k mid s2 now1 Hreq Hq) as Hreq3.
+  set (s3 := run s2 mid) in *.
+  destruct (poll_peers_unknown now2 false s3 k ok2 Hin2 Hnk2) as (_ & _ & [F|F] & _); [discriminate|].
+  unfold request_allowed in F. rewrite Hreq3 in F.
+  apply sat_sub_ge in F; [exact F| |]; unfold ps_poller_request_interval, max_i64, min_i64; lia.
+Qed.
